@@ -393,7 +393,12 @@ func (p *queueProcessor) enqueueIfSlotAvailable(req *Request) bool {
 		return false
 	}
 
-	p.requestsWatcher.AddRequest(req)
+	// the size check above is only a fast path: two concurrent arrivals can both pass it
+	if !p.requestsWatcher.AddRequestIfRoom(req, p.maxQueueSize) {
+		p.logger.Debug().Str("requestID", req.GetID()).
+			Msg("Slot taken by a concurrent arrival, dropping request")
+		return false
+	}
 
 	p.logger.Trace().Str("requestID", req.GetID()).Msg("Slot available, enqueuing")
 	if err := p.queue.Enqueue(req.GetID(), req.GetPriority()); err != nil {
